@@ -68,7 +68,9 @@ def redOK (t p : Nat) : Bool :=
     prod.rhs.length == prod.rhsIds.length && prod.pops == prod.rhsIds.length &&
     match C.backWalk [t] prod.rhsIds.reverse with
     | none => false
-    | some qs => prod.accept || qs.all fun q => C.hasEdge q (T.ncols + prod.nt) (gotoOf T q prod.nt)
+    | some qs =>
+      if prod.accept then qs.all (· == 0)      -- the accepting reduction empties the stack
+      else qs.all fun q => C.hasEdge q (T.ncols + prod.nt) (gotoOf T q prod.nt)
 
 def actOK (t : Nat) (a : Int) : Bool :=
   match asReduce a with
